@@ -318,7 +318,7 @@ Theorem counters_partition_sync : forall w u w' wr,
 Proof.
   intros w u w' wr H Hpg Hph Hfresh Hst Hts Hnd Hown.
   destruct (sync_counters_partition (v_spec w) (w_pods w) Hts Hnd Hown) as [Herr Hpart]. cbv zeta in Herr, Hpart.
-  unfold sync_job in H.
+  unfold sync_job, sync_job_gen in H.
   destruct (phase_beq (st_phase (v_st w)) PhNone) eqn:Ei.
   { apply phase_beq_true in Ei. contradiction. }
   cbn [andb] in H. rewrite pj7, Hpg in H. cbn [negb] in H. rewrite pj6, pj5, Hfresh in H.
